@@ -397,8 +397,9 @@ class ClientGenerator:
                 core_package=resolved_core_package_fqn,
                 exception_alias_names=exception_alias_names,
             )
-            generated_files += [Path(p) for p in core_emitter.emit(str(out_dir))]
-            self._log_progress(f"Generated {len(core_emitter.emit(str(out_dir)))} core files", "EMIT_CORE")
+            core_files = [Path(p) for p in core_emitter.emit(str(out_dir))]
+            generated_files += core_files
+            self._log_progress(f"Generated {len(core_files)} core files", "EMIT_CORE")
 
             # 3. config.py (using FileManager) - REMOVED, CoreEmitter handles this
             # fm = FileManager()
@@ -427,13 +428,13 @@ class ClientGenerator:
             # 5. EndpointsEmitter
             self._log_progress("Generating endpoint files", "EMIT_ENDPOINTS")
             endpoints_emitter = EndpointsEmitter(context=main_render_context)
-            generated_files += [
+            endpoint_files = [
                 Path(p) for p in endpoints_emitter.emit(ir.operations, str(out_dir))
             ]  # emit takes ir.operations, str output_dir
+            generated_files += endpoint_files
             operation_count = len(ir.operations) if ir.operations else 0
             self._log_progress(
-                f"Generated {len(endpoints_emitter.emit(ir.operations, str(out_dir)))} "
-                f"endpoint files for {operation_count} operations",
+                f"Generated {len(endpoint_files)} endpoint files for {operation_count} operations",
                 "EMIT_ENDPOINTS",
             )
 
